@@ -99,6 +99,18 @@ def gen_project(g, tier, style='general'):
             order.append(pname)
             if mod:
                 mod['procs'].append(pname)
+        if mod and len(mod['procs']) >= 2 and style != 'ifs' and g.flip('mutual', 1, 6):
+            # a mutual-recursion cycle inside one module; both procedures are RECURSIVE, written with
+            # different (legal) prefix spellings
+            pa, pb = mod['procs'][0], mod['procs'][1]
+            if not any(c['to'] == pb for c in procs[pa]['calls']):
+                procs[pa]['calls'].append({'to': pb, 'via': 'plain', 'spell': 0})
+            if not any(c['to'] == pa for c in procs[pb]['calls']):
+                procs[pb]['calls'].append({'to': pa, 'via': 'plain', 'spell': 1})
+            for q in (pa, pb):
+                procs[q]['prefix'] = g.pick('prefix', ['recursive', 'pure recursive', 'recursive pure',
+                                                        'RECURSIVE', 'impure recursive'])
+            mod['mutual'] = [pa, pb]
         if mod:
             if mod['iface']:
                 for ip in mod['iface']['procs']:
@@ -106,6 +118,23 @@ def gen_project(g, tier, style='general'):
                                  'uses_param': [], 'external': None, 'calls_iface': [], 'iproc': True,
                                  'ext_mod': None}
             mods.append(mod)
+    if style != 'ifs' and mods and g.flip('shadowimport', 1, 6):
+        # the same symbol name imported at two nesting levels from different modules
+        cands = [m for m in mods if m['procs']]
+        M = g.pick('shadowmod', cands)
+        P = procs[g.pick('shadowproc', M['procs'])]
+        for tag in ('sha', 'shb'):
+            k = 90 + ('sha', 'shb').index(tag)
+            mname = f'{tag}_mod'
+            key = f'hlp@{mname}'
+            procs[key] = {'mod': mname, 'ename': 'hlp', 'calls': [], 'recursive': False, 'uses_var': [],
+                          'uses_type': [], 'uses_param': [], 'external': None, 'ext_mod': None, 'calls_iface': [],
+                          'iproc': True}
+            mods.append({'name': mname, 'idx': k, 'procs': [key], 'types': [], 'vars': [f'gv{k}'],
+                         'params': [f'np{k}'], 'iface': None})
+            unit_list.insert(0, ['mod', mname])
+        M['muses'] = [['sha_mod', 'hlp']]
+        P['calls'].append({'to': 'hlp@shb_mod', 'via': 'only', 'spell': 0})
     files = []
     dirs = ['', 'a/', 'b/c/']
     rest = list(unit_list)
@@ -153,6 +182,11 @@ def gen_config(g, proj, tier):
             'default': default, 'routines': routines}
 
 
+def ename(proj, p):
+    """emitted (Fortran) name of the procedure with model key p"""
+    return proj['procs'][p].get('ename', p)
+
+
 def qualify(proj, p, q):
     m = proj['procs'][p]['mod']
     if q and m:
@@ -167,16 +201,16 @@ def qualify(proj, p, q):
 def emit_proc(proj, p, ind):
     P = proj['procs'][p]
     L = []
-    rec = 'recursive ' if P['recursive'] else ''
-    L.append(f'{ind}{rec}subroutine {p}(x)')
+    rec = (P.get('prefix') or 'recursive') + ' ' if (P['recursive'] or P.get('prefix')) else ''
+    L.append(f'{ind}{rec}subroutine {ename(proj, p)}(x)')
     uses = {}
     unq = []
     for c in P['calls']:
         Q = proj['procs'][c['to']]
         if c['via'] == 'only':
-            uses.setdefault(Q['mod'], []).append(c['to'])
+            uses.setdefault(Q['mod'], []).append(ename(proj, c['to']))
         elif c['via'] == 'rename':
-            uses.setdefault(Q['mod'], []).append(f'loc_{c["to"]} => {c["to"]}')
+            uses.setdefault(Q['mod'], []).append(f'loc_{ename(proj, c["to"])} => {ename(proj, c["to"])}')
         elif c['via'] == 'unqual':
             unq.append(Q['mod'])
     for m in P['uses_var']:
@@ -199,7 +233,8 @@ def emit_proc(proj, p, ind):
             pass
     for m, syms in uses.items():
         if m in unq:
-            extra = [c['to'] for c in P['calls'] if c['via'] == 'unqual' and proj['procs'][c['to']]['mod'] == m]
+            extra = [ename(proj, c['to']) for c in P['calls']
+                     if c['via'] == 'unqual' and proj['procs'][c['to']]['mod'] == m]
             syms = syms + extra
         L.append(f'{ind}  use {spell(m, len(syms))}, only: {", ".join(dict.fromkeys(syms))}')
     L.append(f'{ind}  implicit none')
@@ -215,7 +250,7 @@ def emit_proc(proj, p, ind):
     for i, _ in enumerate(P['uses_type']):
         L.append(f'{ind}  tv{i}%val = x')
     for c in P['calls']:
-        nm = f'loc_{c["to"]}' if c['via'] == 'rename' else c['to']
+        nm = f'loc_{ename(proj, c["to"])}' if c['via'] == 'rename' else ename(proj, c['to'])
         L.append(f'{ind}  call {spell(nm, c["spell"])}(x)')
     for m in P.get('calls_iface', []):
         L.append(f'{ind}  call gen{m_index(proj, m)}(x)')
@@ -224,8 +259,8 @@ def emit_proc(proj, p, ind):
     if P['external']:
         L.append(f'{ind}  call {P["external"]}(x)')
     if P['recursive']:
-        L.append(f'{ind}  if (x > 100.) call {p}(x)')
-    L.append(f'{ind}end subroutine {p}')
+        L.append(f'{ind}  if (x > 100.) call {ename(proj, p)}(x)')
+    L.append(f'{ind}end subroutine {ename(proj, p)}')
     return L
 
 
@@ -238,7 +273,10 @@ def emit_unit(proj, kind, name):
         return emit_proc(proj, name, '')
     m = next(x for x in proj['mods'] if x['name'] == name)
     i = m_index(proj, name)
-    L = [f'module {name}', '  implicit none', f'  integer, parameter :: np{i} = {i + 1}', f'  real :: gv{i} = {i}.0']
+    L = [f'module {name}']
+    for um, usym in m.get('muses', []):
+        L.append(f'  use {um}, only: {usym}')
+    L += ['  implicit none', f'  integer, parameter :: np{i} = {i + 1}', f'  real :: gv{i} = {i}.0']
     for t in m['types']:
         L += [f'  type {t}', '    real :: val', f'  end type {t}']
     if m.get('iface'):
@@ -271,7 +309,7 @@ def emit_files(proj):
 
 def item_name(proj, p):
     m = proj['procs'][p]['mod']
-    return f'{m}#{p}' if m else f'#{p}'
+    return f'{m}#{ename(proj, p)}' if m else f'#{ename(proj, p)}'
 
 
 def matches(name, keys):
@@ -388,5 +426,11 @@ def reference_graph(proj, cfg):
                 votes[b] |= new
                 changed = True
     ignored = {n: (next(iter(v)) if len(v) == 1 else None) for n, v in votes.items()}
-    return {'nodes': nodes, 'edges': set(edges), 'ignored': ignored,
+    cyc = []
+    for m in proj['mods']:
+        if m.get('mutual'):
+            a, b = (item_name(proj, x) for x in m['mutual'])
+            if a in nodes and b in nodes:
+                cyc.append((a, b))
+    return {'nodes': nodes, 'edges': set(edges), 'ignored': ignored, 'cycles': cyc,
             'has_external': any(k == 'external' for k in nodes.values())}
